@@ -89,8 +89,18 @@ def incb_case(ctx, case):
     content = case['content']
     where = case['where']
     name = case.get('name', 'blob.bin')
-    rel = {'beside': name, 'sub': 'sub/' + name, 'incdir': name}[where]
-    target = os.path.join(inc_dir if where == 'incdir' else src_dir, rel)
+    if where == 'symlink':
+        # src/assets -> <root>/real/pkg/assets ; the program writes assets/../NAME: the file system takes that to <root>/real/pkg/NAME (not to src/NAME, which holds other bytes)
+        real = os.path.join(root, 'real', 'pkg')
+        os.makedirs(os.path.join(real, 'assets'))
+        os.symlink(os.path.join(real, 'assets'), os.path.join(src_dir, 'assets'))
+        rel = 'assets/../' + name
+        target = os.path.join(real, name)
+        with open(os.path.join(src_dir, name), 'wb') as f:
+            f.write(bytes(b ^ 0x33 for b in content) + b'!')
+    else:
+        rel = {'beside': name, 'sub': 'sub/' + name, 'incdir': name}[where]
+        target = os.path.join(inc_dir if where == 'incdir' else src_dir, rel)
     with open(target, 'wb') as f:
         f.write(content)
     if name.lower() != name:
@@ -103,6 +113,7 @@ def incb_case(ctx, case):
         os.makedirs(os.path.join(d, 'same', 'sub'))
         os.makedirs(os.path.join(d, 'diff', 'sub'))
         for sub, pl in (('same', same), ('diff', diff)):
+            os.makedirs(os.path.dirname(os.path.join(d, sub, rel)), exist_ok=True)
             with open(os.path.join(d, sub, rel), 'wb') as f:
                 f.write(pl)
     main = os.path.join(src_dir, 'main.asm')
@@ -115,7 +126,8 @@ def incb_case(ctx, case):
     ctx.count('incb_runs')
     try:
         try:
-            out = bytes(asm.assemble(main, include_dirs=[inc_dir] if where == 'incdir' else None))
+            # (for a mixed-case name the -i directory is searched too: it only holds the case-folded twin, which is a different file)
+            out = bytes(asm.assemble(main, include_dirs=[inc_dir] if where == 'incdir' or name.lower() != name else None))
             err = None
         except BaseException as e:
             out, err = None, '%s: %s' % (type(e).__name__, kernel.errline(e)[:150])
@@ -232,6 +244,9 @@ def incb_cases(tier):
             for cwd in ('src', 'other', 'decoy-same', 'decoy-diff'):
                 cases.append(dict(content=content, where=where, cwd=cwd))
     # file names with upper-case letters, digits, dots and dashes (the written name must be used as written)
+    for n, content in enumerate([b'\x01', b'\x10\x20\x30', bytes(range(40))]):
+        for cwd in ('src', 'other', 'decoy-same'):
+            cases.append(dict(content=content, where='symlink', cwd=cwd))
     for name in ('Logo.DAT', 'FONT-8x8.Bin', 'a.b.c', 'X', '=', 'a=b', '==', 'x:', '%hi', 'string', 'include_bytes', '0x10', '-1'):      # names that look like other syntax
         for where in ('beside', 'sub', 'incdir'):
             for cwd in ('src', 'other', 'decoy-same'):
